@@ -195,6 +195,10 @@ class CanonicalEvolutionDesigner(vza.PartiallySerializableDesigner,
 
   def load(self, metadata: vz.Metadata):
     self._population = type(self._population).recover(metadata)
+    # Absent in states written before the counter was persisted.
+    self._num_trials_seen = int(metadata.get('num_trials_seen', default='0'))
 
   def dump(self) -> vz.Metadata:
-    return self._population.dump()
+    metadata = self._population.dump()
+    metadata['num_trials_seen'] = str(self._num_trials_seen)
+    return metadata
